@@ -404,18 +404,65 @@ func (fc *FnCtx) applyAxioms() {
 	if fc.m.mode == ModeBV {
 		modeName = "bv"
 	}
-	for _, ax := range fc.g.specs.Axioms {
-		if ax.Mode != "" && ax.Mode != modeName {
-			continue
+	// An axiom is added when it can matter: for a quantified axiom with triggers, when every spec function of at least
+	// one trigger group already occurs in the verification condition (otherwise it can never be instantiated);
+	// for the others, when any of its functions or globals occurs. Adding an axiom may introduce new functions,
+	// so this runs to a fixpoint.
+	done := map[string]bool{}
+	for changed := true; changed; {
+		changed = false
+		for _, ax := range fc.g.specs.Axioms {
+			if done[ax.Name] || (ax.Mode != "" && ax.Mode != modeName) {
+				continue
+			}
+			if !fc.axiomRelevant(ax.Expr) || !fc.axiomTriggerable(ax.Expr) {
+				continue
+			}
+			done[ax.Name] = true
+			changed = true
+			env := &Env{fc: fc, state: fc.entry, pkg: fc.g.pkg.Pkg, errs: &fc.errs, names: map[string]Val{}}
+			f := env.bool(ax.Expr)
+			fc.define(f)
+			fc.note("axiom " + ax.Name + ": " + ax.Text)
 		}
-		if !fc.axiomRelevant(ax.Expr) {
-			continue
-		}
-		env := &Env{fc: fc, state: fc.entry, pkg: fc.g.pkg.Pkg, errs: &fc.errs, names: map[string]Val{}}
-		f := env.bool(ax.Expr)
-		fc.define(f)
-		fc.note("axiom " + ax.Name + ": " + ax.Text)
 	}
+}
+
+// axiomTriggerable: for a top-level quantifier with trigger groups, some group has all of its spec functions declared.
+func (fc *FnCtx) axiomTriggerable(e *SExpr) bool {
+	if e == nil || (e.Op != "forall" && e.Op != "exists") || len(e.Trigs) == 0 {
+		return true
+	}
+	var calls func(x *SExpr, out map[string]bool)
+	calls = func(x *SExpr, out map[string]bool) {
+		if x == nil {
+			return
+		}
+		if x.Op == "call" {
+			if _, isSF := fc.g.specs.SpecFuns[x.Name]; isSF {
+				out[x.Name] = true
+			}
+		}
+		for _, a := range x.Args {
+			calls(a, out)
+		}
+	}
+	for _, g := range e.Trigs {
+		fs := map[string]bool{}
+		for _, t := range g {
+			calls(t, fs)
+		}
+		ok := true
+		for f := range fs {
+			if _, d := fc.declared["sf!"+f]; !d {
+				ok = false
+			}
+		}
+		if ok {
+			return true
+		}
+	}
+	return false
 }
 
 func (fc *FnCtx) axiomRelevant(e *SExpr) bool {
@@ -504,8 +551,8 @@ func (g *Gen) discharge(fcs []*FnCtx, filter func(*Oblig) bool) {
 				defer wg.Done()
 				o.Query = fc.buildQuery(o)
 				to := g.timeoutS
-				if o.Cover && to > 6 {
-					to = 6 // a cover that needs longer falls back to its quantifier-free part
+				if o.Cover && to > 3 {
+					to = 3 // a cover that needs longer falls back to its quantifier-free part
 				}
 				r := runPortfolio(o.Name, o.Query, to, g.seed)
 				to = g.timeoutS
